@@ -8,7 +8,7 @@ from ..oracles import tb
 
 READY = True
 LEVEL = 'exploration'
-TECHNIQUE = 'runtime post-condition monitoring of modus_ponens / exists_generalization / instantiate on BasicInterpreter, StatefulInterpreter and through ProofExp thunks, against the documented rule evaluated on notation-free expansions'
+TECHNIQUE = 'runtime post-condition monitoring of modus_ponens / exists_generalization / instantiate on BasicInterpreter, StatefulInterpreter, the optimising transformers over BasicInterpreter and through ProofExp thunks, against the documented rule evaluated on notation-free expansions'
 LEVEL_TEXT = ('Adversarial premises (antecedents differing in one leaf, implications visible only after notation expansion, consequents hiding the '
               'generalised variable under 1-3 notation layers, instantiation maps that hit or miss metavariable constraints or capture) are fed to the '
               'real rule methods; the call must raise when the documented rule is inapplicable and otherwise return exactly the documented conclusion.')
@@ -16,13 +16,14 @@ LEVEL_NOTE = 'Trusted: the rule table of the reference machine (Appendix B) on O
 DESIGN_REF = 'DESIGN.md section 5 C07'
 NSHARDS = 16
 TIMEOUT = {'quick': 1500, 'thorough': 3 * 3600}
-RULE = ('A case is one rule call with generated premises on one of three drivers (BasicInterpreter; StatefulInterpreter with the premises published as '
-        'axioms and loaded; ProofExp thunks over load_axiom). Applicable and inapplicable premises are generated in equal measure, each inapplicable '
+RULE = ('A case is one rule call with generated premises on one of five drivers (BasicInterpreter; StatefulInterpreter with the premises published as '
+        'axioms and loaded; ProofExp thunks over load_axiom; InstantiationOptimizer and MemoizingInterpreter over BasicInterpreter). Applicable and inapplicable premises are generated in equal measure, each inapplicable '
         'one tagged with its reason. distinct_nontrivial = distinct (rule, premises, argument) with notation or a metavariable in a premise.')
 ASSUMPTIONS = ['instantiation maps whose textbook result is undefined only through a metavariable-dependent potential capture are not judged']
 FLOORS = {'quick': {'mp:applicable': 1000, 'mp:inapplicable:antecedent_mismatch': 1000, 'mp:inapplicable:not_implication': 300, 'mp:implication_only_after_expansion': 300,
                     'gen:applicable': 1000, 'gen:inapplicable:variable_free': 1000, 'gen:inapplicable:not_implication': 200, 'gen:hidden_under_notation': 300,
-                    'inst:applicable': 1000, 'inst:inapplicable:constraint': 300, 'inst:inapplicable:capture': 100, 'inst:partial_node_premise': 100, 'driver:basic': 3000, 'driver:stateful': 1500, 'driver:proofexp': 1500}}
+                    'inst:applicable': 1000, 'inst:inapplicable:constraint': 300, 'inst:inapplicable:capture': 100, 'inst:partial_node_premise': 100, 'driver:basic': 3000, 'driver:stateful': 1500, 'driver:proofexp': 1500, 'driver:instopt(basic)': 1000, 'driver:memo(basic)': 1000,
+                    'inst:plug_is_same_number_metavariable': 300, 'mp:same_definition_other_keys:different': 1000, 'mp:same_definition_other_keys:equal': 200}}
 FLOORS['thorough'] = dict(FLOORS['quick'])
 
 
@@ -47,6 +48,12 @@ class Drivers:
         try:
             if driver == 'basic':
                 it = self.B.BasicInterpreter(self.I.ExecutionPhase.Proof)
+                prs = [self.Proved(p) for p in premises]
+                return ('ok', self._apply(it, rule, prs, arg, push=None).conclusion)
+            if driver in ('instopt(basic)', 'memo(basic)'):
+                O = repo.mod('optimizing_interpreters')
+                inner = self.B.BasicInterpreter(self.I.ExecutionPhase.Proof)
+                it = O.InstantiationOptimizer(inner) if driver.startswith('instopt') else O.MemoizingInterpreter(inner)
                 prs = [self.Proved(p) for p in premises]
                 return ('ok', self._apply(it, rule, prs, arg, push=None).conclusion)
             if driver == 'stateful':
@@ -120,8 +127,11 @@ def shard(ctx):
     rng = ctx.rng
     D = Drivers()
     P = D.P
+    global BINARY_NOTATIONS
+    BINARY_NOTATIONS = [nt for nt, _fam in repo.all_notations().values() if nt.arity == 2 and nt.definition.metavars() == {0, 1}
+                        and not any(m[2] or m[3] or m[4] or m[5] or m[6] for ms in tb.metavars(tb.of_repo(nt.definition)).values() for m in ms)]
     n = ctx.scale(120000, 1500000)
-    drivers = ('basic', 'basic', 'stateful', 'proofexp')
+    drivers = ('basic', 'basic', 'stateful', 'stateful', 'proofexp', 'proofexp', 'instopt(basic)', 'memo(basic)')
 
     def W(**w):
         return {k: (str(v) if not isinstance(v, (str, int, list, dict, type(None), bool)) else v) for k, v in w.items()}
@@ -157,6 +167,24 @@ def shard(ctx):
                 reason = 'not_implication'
             left = rp.fold(left_e, rng, rng.choice((0.0, 0.6, 0.95)))
             right = rp.fold(right_e, rng, rng.choice((0.0, 0.6, 0.95)))
+            if rng.random() < 0.12:
+                # antecedent and right premise are two nodes over the SAME notation definition that differ in how the arguments are
+                # keyed: permuted insertion order (same pattern), values attached to other keys, or a partial node (other patterns)
+                from frozendict import frozendict
+                nt = rng.choice(BINARY_NOTATIONS)
+                a = rp.fold(term(1, meta=0.5, notation=0.2), rng, 0.3); b = rp.fold(term(1, meta=0.5, notation=0.2), rng, 0.3)
+                full = P.Instantiate(nt.definition, frozendict({0: a, 1: b}))
+                other = rng.choice((P.Instantiate(nt.definition, frozendict({1: b, 0: a})),      # same pattern, other insertion order
+                                    P.Instantiate(nt.definition, frozendict({1: a, 0: b})),      # same values in the same positions, other keys
+                                    P.Instantiate(nt.definition, frozendict({0: a})),            # partial: parameter 1 left open
+                                    P.Instantiate(nt.definition, frozendict({1: b})),
+                                    P.Instantiate(nt.definition, frozendict({1: a}))))
+                ante, right = (full, other) if rng.random() < 0.5 else (other, full)
+                Bp = rp.fold(B, rng, 0.3)
+                left = P.Implies(ante, Bp)
+                left_e = tb.of_repo(left, 'strict'); right_e = tb.of_repo(right, 'strict')
+                reason = None if tb.norm_py(left_e[1]) == tb.norm_py(right_e) else 'antecedent_mismatch'
+                ctx.count('mp:same_definition_other_keys:' + ('equal' if reason is None else 'different'))
             ctx.case(('mp', tb.show(left_e), tb.show(right_e)), nontrivial='(mv ' in tb.show(left_e) or rp.notation_depth(left) > 0)
             out = D.call(driver, 'mp', [left, right], None)
             ctx.count('mp:applicable' if reason is None else 'mp:inapplicable:' + reason)
@@ -239,6 +267,14 @@ def shard(ctx):
             for i in keys:
                 if forced:
                     delta_e[i] = forced[i]
+                    continue
+                if rng.random() < 0.08:
+                    # the plug is the metavariable with the SAME number, carrying more (or just other) constraints: not an identity
+                    nodes = sorted(tb.metavars(conc_e).get(i, set()))
+                    m0 = rng.choice(nodes) if nodes else tb.mv(i)
+                    extra = rng.choice(((0,), (1,), (0, 1), ()))
+                    delta_e[i] = tb.mv(i, ef=tuple(sorted(set(m0[2]) | set(extra))), sf=tuple(sorted(set(m0[3]) | set(rng.choice(((), (0,), (1,)))))), pos=m0[4], neg=m0[5], holes=m0[6])
+                    ctx.count('inst:plug_is_same_number_metavariable')
                     continue
                 if rng.random() < 0.5:
                     nodes = tb.metavars(conc_e).get(i, set())
